@@ -230,6 +230,12 @@ pub fn corpus(deep: bool) -> Vec<String> {
     for a in props { for o in ops { for b in props { out.push(format!("{a} {o} {b}")); } } }
     let small: Vec<String> = { let mut v = Vec::new(); for a in ["p", "q"] { for o in ["->", "<-", "and", "<->"] { for b in ["p", "q", "r"] { v.push(format!("({a} {o} {b})")); } } } v };
     for a in &small { for o in ops { for b in &small { out.push(format!("{a} {o} {b}")); } } }
+    // the three sorts side by side
+    for t in ["exists X$i Y$s (Z = X$i and Z = Y$s and p(X$i))", "exists X$i Y$s (X$i = Z and Y$s = Z and p(X$i) and q(Y$s))", "exists Y$s X$i (Z = Y$s and X$i = Z and p(1))", "forall X (exists X$i Y$s (#inf = X$i and #inf = Y$s and p(X$i)) -> q(X))",
+              "exists X$s (X$s = a and p(X$s))", "exists X$s (X$s = Y and p(X$s))", "exists X$s Y$s (X$s = Y$s and q(X$s, Y$s))", "forall X$s (p(X$s) -> exists N$i (q(N$i) and N$i < X$s))", "exists X (exists Y$s (X = Y$s) and p(X))",
+              "exists X Y$s N$i (X = Y$s and X = N$i and p(X))", "exists N$i Y$s (N$i = 1 and Y$s = a and q(N$i, Y$s))", "exists Y$s (Y$s = X and Y$s = Z and p(Y$s))"] {
+        out.push(t.to_string());
+    }
     // long comparison chains: one rewrite makes the formula grow before the others shrink it again
     for t in ["exists N$i (0 < N$i < M$i < K$i < 10 and N$i = 1)", "forall X (p(X) -> X = X = X = X = X = X)", "X = X = X = X", "1 < 2 < 3 < 4 < 5 and p and p", "exists X (X = Y = Y = Y = Y and p(X))", "0 <= N$i <= N$i <= N$i <= 2 and (p or p)",
               "not 1 < 2 < 3 < 4 < 5 < 6 < 7", "forall N$i (p(N$i) and 0 < N$i < N$i + 1 < N$i + 2 < 5 -> q(N$i) and #true)", "a = a = a = a = a <-> (p <-> p)", "exists Z (Z = X and 0 <= Z <= Z <= Z <= 1 and p(Z) and #true)"] {
